@@ -35,7 +35,7 @@ Fixpoint jlookup (k : bytes) (m : jmap) : option jvalue :=
   | (k', v) :: r => if bytes_eqb k k' then Some v else jlookup k r
   end.
 
-(* ---- jwt.go:21  bytes.Split(data, []byte(".")) ---- *)
+(* ---- jwt.go:23  bytes.Split(data, []byte(".")) ---- *)
 Definition dot : N := 46.
 Fixpoint split_dot (s : bytes) : list bytes :=
   match s with
@@ -49,7 +49,7 @@ Fixpoint split_dot (s : bytes) : list bytes :=
 
 Record jwt := mkjwt { j_header : jmap; j_payload : jmap; j_sig : bytes }.
 
-(* jwt.go:35-41: json.Unmarshal into the map, then (after F22) the nil check.
+(* jwt.go:34-39, 46-51: json.Unmarshal into the (nil) map, then (after F22) the nil check.
    [strict = false] is the original code: the map was pre-made, "null" left it empty. *)
 Definition unmarshal_map (strict : bool) (r : jres) : result jmap :=
   match r with
@@ -58,7 +58,7 @@ Definition unmarshal_map (strict : bool) (r : jres) : result jmap :=
   | JRError => Err "json.Unmarshal"
   end.
 
-(* jwt.go:20 ParseJWT *)
+(* jwt.go:22 ParseJWT *)
 Definition parse_jwt_gen (strict : bool) (J : bytes -> jres) (s : bytes) : result jwt :=
   match split_dot s with
   | [h; p; g] =>
@@ -101,7 +101,7 @@ Definition alg_expansion (s : bytes) : option bytes :=
   else if bytes_eqb s (bs "PS384") then Some (a_ps "384")
   else if bytes_eqb s (bs "PS512") then Some (a_ps "512")
   else None.
-(* jwt.go sigAlg on a string: "<expansion> (<alg>)" for the 12 algorithms, else the string itself *)
+(* jwt.go:111 sigAlg on a string: "<expansion> (<alg>)" for the 12 algorithms, else the string itself *)
 Definition sig_alg (s : bytes) : bytes :=
   match alg_expansion s with
   | Some e => e ++ bs " (" ++ s ++ bs ")"
@@ -119,7 +119,7 @@ Definition fmt_unix_utc (t : Z) : bytes := fmt_datetime (civil_of_unix t 0).
 Definition float_floor (m e : Z) : Z :=
   (if 0 <=? e then m * 2 ^ e else m / 2 ^ (- e))%Z.
 
-(* strconv.ParseInt(s, 10, 64): optional sign, one or more ASCII digits, int64 range *)
+(* jwt.go:164 strconv.ParseInt(s, 10, 64): optional sign, one or more ASCII digits, int64 range *)
 Fixpoint digits_val (acc : Z) (l : bytes) : option Z :=
   match l with
   | [] => Some acc
@@ -138,13 +138,16 @@ Definition parse_int64 (s : bytes) : option Z :=
   | None => None
   end.
 
-(* jwt.go numericDate *)
+(* jwt.go:174 numericDate (the range test is done on the float; same verdict, see unixTime) *)
 Definition numeric_date (t : Z) : option bytes :=
   if in_calendar t then Some (fmt_unix_utc t) else None.
 
 Inductive conv := CStr | CAlg | CTime | CUnknown.
 
-(* jwt.go str / sigAlg / unixTime after the repair: (value, shown?) *)
+(* jwt.go:145 str / :111 sigAlg / :159 unixTime after the repair: (value, shown?).
+   unixTime on a string converts the parsed int64 to float64 before the range test; every
+   integer of the calendar range is below 2^53 and the conversion is monotone, so the test on
+   the integer itself gives the same verdict *)
 Definition convert (c : conv) (v : jvalue) : option bytes :=
   match c, v with
   | CStr, JStr s => Some s
@@ -171,7 +174,8 @@ Definition params_of (t : list (bytes * bytes * bytes)) : list param :=
   map (fun r => match r with (k, l, c) => mkparam k l (conv_of_name c) end) t.
 Definition jwt_params : list param := params_of gen.JwtParams.table.
 
-(* jwt.go jwtAttributes: the registered names in table order, each looked up in the map *)
+(* jwt.go:71 jwtAttributes: the registered names in table order (jwtParams, jwt.go:89), each
+   looked up in the map *)
 Definition attrs_in (t : list param) (m : jmap) : list (bytes * bytes) :=
   flat_map (fun p => match jlookup (p_key p) m with
                      | Some v => match convert (p_conv p) v with
